@@ -49,14 +49,10 @@ def main():
                     if value.isReturn():
                         value = value.asReturn().value
                     if value != NULL:
-                        print(value)
+                        print(ckl.interpreter.render(value))
                 except CklRuntimeError as e:
-                    print(str(e.value.value if e.value.isString() else e.value)
-                          + ": " + str(e.msg)
-                          + " (Line " + str(e.pos) + ")")
-                    if e.stacktrace:
-                        for st in e.stacktrace:
-                            print(str(st))
+                    for errline in ckl.interpreter.render_error(e):
+                        print(errline)
                 except CklSyntaxError as e:
                     print(e.msg
                           + ((" (Line " + str(e.pos) + ")") if e.pos else ""))
